@@ -70,12 +70,12 @@ type SpecFunc struct {
 }
 
 type TypeDecl struct {
-	Pkg, Type string
-	Nonnil    []string
-	GuardedBy map[string]string // field -> lock field
-	Invs      []Clause
-	Immutable []string
-	Stable    []string // not changed by other threads once the object is shared (assumption; writes restricted)
+	Pkg, Type  string
+	Nonnil     []string
+	GuardedBy  map[string]string // field -> lock field
+	Invs       []Clause
+	Immutable  []string
+	Stable     []string // not changed by other threads once the object is shared (assumption; writes restricted)
 	ValsNonnil []string // containers (maps, slices) in these fields hold no nil values
 	Writers    []WritersDecl
 }
